@@ -178,7 +178,7 @@ func (c *Ctx) Violation(sig string, replay any) {
 		}
 	}
 	c.violations++
-	if c.violations > 20 {
+	if c.violations > 60 {
 		return
 	}
 	dir := OutDir()
